@@ -38,6 +38,11 @@ def handleC01 (f : List String) : Res :=
         | .error .target => (match a.find n o with | .ok c => showInts c | .error _ => "err", "-")
         | .error _ => ("err", "-")
       let r := cmp "chain" mc impl r
+      -- `RightToLeft.FindChain` as TRANSLATED from binary.go (n >= 1)
+      let r := if alg == "bin" && n ≥ 1 then
+          cmp "translated-binary" (match AC.Gen.Program.binaryRightToLeftFindChain (n : Int) with
+            | some (c, none) => showInts c | some (_, some _) => "err" | none => "panic") impl r
+        else r
       let r := if impl == "err" || impl == "panic" then r else cmp "program" mp prog r
       let r := specIf "harness-stagewise-equals-findchain" (stage == "1") r
       let r := if !a.wf || n == 0 then { r with tag := "outside-property" } else
